@@ -402,7 +402,9 @@ def gen_state(rng, infos, depth=0):
     return ["base"]
 
 
-LINK_KINDS = ["clink", "clink-fn", "clink2", "same", "twoway", "multi", "aligned", "units", "join", "keyjoin", "mkeyjoin", "pix-same", "cel", "clinkp"]
+LINK_KINDS = ["clink", "clink-fn", "clink2", "same", "twoway", "multi", "aligned", "units", "join", "keyjoin", "mkeyjoin", "pix-same", "cel", "clinkp",
+              "multi-lab", "multi-1way", "offset", "affine"]
+MLABELS = [None, ["p", "q"], ["st__p", "a b"], ["x", "x"], []]
 
 
 def gen_link(rng, infos, kind=None):
@@ -419,10 +421,34 @@ def gen_link(rng, infos, kind=None):
     def pick2(I):
         # two *different* components (the same one twice gives two routes to one target)
         return rng.sample(I["nums"], 2) if len(I["nums"]) >= 2 else None
-    if kind in ("clink2", "clinkp", "multi", "mkeyjoin", "cel"):
+    if kind in ("offset", "affine"):
+        # on pixel axes (what wcs_autolink builds) or on two ordinary components of each side
+        n = min(A["ndim"], B["ndim"])
+        if n >= 2 and rng.random() < 0.4:
+            c1 = [[i, ["pix", a]] for a in range(n)]
+            c2 = [[j, ["pix", a]] for a in range(n)]
+        else:
+            pa, pb = pick2(A), pick2(B)
+            if pa is None or pb is None:
+                return None
+            n = 2
+            c1, c2 = [[i, pa[0]], [i, pa[1]]], [[j, pb[0]], [j, pb[1]]]
+        if kind == "offset":
+            return ["offset", c1, c2, [rnum(rng) for _ in range(n)]]
+        return ["affine", c1, c2, rng.randint(0, 30)]
+    if kind in ("clink2", "clinkp", "multi", "multi-lab", "multi-1way", "mkeyjoin", "cel"):
         pa, pb = pick2(A), pick2(B)
-        if pa is None or (pb is None and kind in ("multi", "mkeyjoin", "cel")):
+        if pa is None or (pb is None and kind in ("multi", "multi-lab", "mkeyjoin", "cel")):
             return None
+        if kind == "multi-lab":
+            return ["multi", [[i, pa[0]], [i, pa[1]]], [[j, pb[0]], [j, pb[1]]], "pfwd", "pbwd", rng.choice(MLABELS), rng.choice(MLABELS)]
+        if kind == "multi-1way":
+            # one direction only (the other function is None; its labels must then be given), 2 -> 2 or 2 -> 1
+            to = [[j, pb[0]], [j, pb[1]]] if (pb is not None and rng.random() < 0.5) else [[j, pick(B)]]
+            fn = "pfwd" if len(to) == 2 else "sum2"
+            if rng.random() < 0.5:
+                return ["multi", [[i, pa[0]], [i, pa[1]]], to, fn, None, rng.choice(MLABELS), rng.choice(MLABELS[1:])]
+            return ["multi", to, [[i, pa[0]], [i, pa[1]]], None, fn, rng.choice(MLABELS[1:]), rng.choice(MLABELS)]
         if kind == "clink2":
             return ["clink", [[i, pa[0]], [i, pa[1]]], [j, pick(B)], "sum2"]
         if kind == "clinkp":
@@ -472,7 +498,7 @@ def link_components(l):
         cs = {(l[1], str(l[2])), (l[3], str(l[4]))}
     elif k == "mkeyjoin":
         cs = {(l[1], str(c)) for c in l[2]} | {(l[3], str(c)) for c in l[4]}
-    elif k == "multi":
+    elif k in ("multi", "offset", "affine"):
         cs = {(d, str(c)) for d, c in l[1]} | {(d, str(c)) for d, c in l[2]}
     elif k == "cel":
         cs = {(d, str(c)) for d, c in l[2]} | {(d, str(c)) for d, c in l[3]}
@@ -647,6 +673,25 @@ D3 = ["d3", [2, 3], [["f", "x", 31], ["f", "y", 33], ["c", "k", 32]], ["aff", 2]
 D4 = ["d4", [2, 3], [["f", "x", 41], ["i", "n", 42]], None, 5, 5]
 D5 = ["regions", ["region", 3], [["f", "v", 51], ["c", "k", 52]], None, 6, 1]
 RECT = ["rect", -3, 3, -3, 3, 0]
+XY, AB = [[0, "x"], [0, "y"]], [[1, "a"], [1, "b"]]
+PIX3, PIX4 = [[3, ["pix", 0]], [3, ["pix", 1]]], [[4, ["pix", 0]], [4, ["pix", 1]]]
+# MultiLink and the parametrised wcs_autolinking helpers (savable since the C12 repair F-C12d): functions in
+# both / one direction, explicit argument labels (tricky ones too), 2 -> 1, on components and on pixel axes
+MULTI_LINKS = [
+    ["multi", XY, AB, "pfwd", "pbwd", ["p", "q"], ["u", "v"]],
+    ["multi", XY, AB, "pfwd", "pbwd", ["st__p", "a b"], None],
+    ["multi", XY, AB, "pfwd", "pbwd", None, ["x", "x"]],
+    ["multi", XY, AB, "pfwd", "pbwd", [], []],
+    ["multi", XY, AB, "pfwd", None, None, ["u", "v"]],
+    ["multi", XY, AB, None, "pbwd", ["p", "q"], None],
+    ["multi", XY, [[1, "a"]], "sum2", None, None, ["s"]],
+    ["multi", [[1, "a"]], XY, None, "sum2", ["s"], ["p", "q"]],
+    ["multi", XY, AB, "pbwd", "pfwd"],
+    ["offset", XY, AB, [3, [-5, 2]]], ["offset", XY, AB, [0, 0]], ["offset", PIX3, PIX4, [1, -2]],
+    ["offset", [[2, ["pix", a]] for a in range(3)], [[1, "a"], [1, "b"], [1, "n"]], [1, [1, 4], -3]],
+    ["affine", XY, AB, 1], ["affine", XY, AB, 4], ["affine", XY, AB, 7], ["affine", PIX3, PIX4, 2], ["affine", PIX3, PIX4, 13],
+    ["affine", [[2, "x"], [2, "y"], [2, "z"]], [[0, "x"], [0, "y"], [0, "n"]], 10],
+]
 
 
 def systematic_sessions(tier):
@@ -694,13 +739,15 @@ def systematic_sessions(tier):
              ["aligned", 3, 4], ["units", 0, "uu", 1, "uu"], ["join", 0, "n", 1, "n"], ["keyjoin", 0, "n", 1, "n"], ["mkeyjoin", 0, ["n", "x"], 1, ["n", "a"]],
              ["same", 3, ["pix", 0], 4, ["pix", 1]], ["cel", "Galactic_to_FK5", [[0, "x"], [0, "y"]], [[1, "a"], [1, "b"]]],
              ["cel", "ICRS_to_Galactic", [[0, "x"], [0, "y"]], [[1, "a"], [1, "b"]]], ["same", 0, "dd", 1, "b"], ["same", 1, "a", 2, "x"]]
+    npair = len(links) + 3          # pairs: the helpers above + one MultiLink / OffsetLink / AffineLink
+    links += [MULTI_LINKS[0], MULTI_LINKS[9], MULTI_LINKS[13]] + [l for k, l in enumerate(MULTI_LINKS) if k not in (0, 9, 13)]
     g2 = [[["range", 0, "x", -2, 3], None, 3], [["ineq", 1, "n", "gt", 0], "lab", None]]
     for l in links:
         yield dict(base, links=[l], groups=g2, full_access=True)
     links2 = [["clink", [[1, "b"]], [2, "y"], None], ["same", 1, "b", 2, "y"], ["twoway", 1, "b", 2, "y", "double", "half"],
               ["aligned", 3, 4], ["keyjoin", 1, "k", 3, "k"], ["join", 2, "n", 4, "n"], ["same", 3, ["pix", 1], 4, ["pix", 0]],
               ["clink", [[2, "x"], [2, "y"]], [3, "x"], "sum2"]]
-    for a in range(len(links)):
+    for a in range(npair):
         for b in range(len(links2)):
             if tier == "thorough" or (a + b) % 2 == 0:
                 ca, da = link_components(links[a])
@@ -1000,7 +1047,9 @@ RECIPES = {
     LH + "LinkSameWithUnits": (_sess(links=[["units", 0, "uu", 1, "uu"]]), P_LINK),
     LH + "LinkAligned": (_sess(links=[["aligned", 3, 4]]), P_LINK),
     LH + "JoinLink": (_sess(links=[["join", 0, "n", 1, "n"]], groups=[[["ineq", 1, "n", "gt", 0], None, None]]), P_LINK),
-    LH + "MultiLink": (_sess(links=[["multi", [[0, "x"], [0, "y"]], [[1, "a"], [1, "b"]], "pfwd", "pbwd"]]), P_LINK),
+    LH + "MultiLink": (_sess(links=[["multi", XY, AB, "pfwd", "pbwd", ["p", "st__q"], None]]), P_LINK),
+    "glue.plugins.wcs_autolinking.wcs_autolinking.OffsetLink": (_sess(links=[["offset", XY, AB, [3, [-5, 2]]]]), P_LINK),
+    "glue.plugins.wcs_autolinking.wcs_autolinking.AffineLink": (_sess(links=[["affine", PIX3, PIX4, 13]]), P_LINK),
     LH + "PartialResult": (_sess(links=[["clinkp", [[0, "x"], [0, "y"]], [1, "a"], 1]]), lambda dc: dc.external_links[0].get_using()),
 }
 for _n in ("Galactic_to_FK5", "FK4_to_FK5", "ICRS_to_FK5", "Galactic_to_FK4", "ICRS_to_FK4", "ICRS_to_Galactic", "GalactocentricToGalactic"):
@@ -1080,6 +1129,6 @@ PROP = Property(
     trusted_base=["JSON, base64, np.save/np.load, FITS/HDF5/CSV readers (astropy, h5py, pandas) are trusted codecs",
                   "CPython dict insertion order (registration order of GlueSerializer._objs), generator protocol, bound-method equality"],
     assumptions=["the harness node classes (harness/props/c02_fw.py) are field-faithful savers/loaders: everything else they exercise is glue/core/state.py",
-                 "observables of a session: labels, component order/kinds/units/values, pixel/world ids, coords class, styles, serialisable metadata, subset labels/styles/masks, key joins, which attribute of which dataset is reachable from which dataset (and its values), groups, subset-group counter, number of external links"],
-    rule="fw: all label triples over tricky labels, all 2-node graphs over a field alphabet (stride in quick), seeded random graphs <= 7 nodes; cls: every class of the generated table; sess: every leaf selection kind alone / negated / pairwise combined, every ROI and pre-transform, every link helper alone and in pairs, tricky labels, metadata x shapes x coords, then seeded random sessions (1-3 datasets <= 3-d, 0-3 links, 0-3 groups with nested selections); sessf: file-backed sessions saved by reference. non-trivial = restored ok with at least a group or a link / two nodes",
+                 "observables of a session: labels, component order/kinds/units/values, pixel/world ids, coords class, styles, serialisable metadata, subset labels/styles/masks, key joins, which attribute of which dataset is reachable from which dataset (and its values), groups, subset-group counter, number of external links, and per link helper its class, datasets, component ids, argument labels, number of component links and parameters (offsets / affine matrix)"],
+    rule="fw: all label triples over tricky labels, all 2-node graphs over a field alphabet (stride in quick), seeded random graphs <= 7 nodes; cls: every class of the generated table; sess: every leaf selection kind alone / negated / pairwise combined, every ROI and pre-transform, every link helper alone and in pairs (MultiLink with functions in both / one direction, explicit labels, 2->1; OffsetLink / AffineLink on components and on pixel axes), tricky labels, metadata x shapes x coords, then seeded random sessions (1-3 datasets <= 3-d, 0-3 links, 0-3 groups with nested selections); sessf: file-backed sessions saved by reference. non-trivial = restored ok with at least a group or a link / two nodes",
 )
